@@ -25,6 +25,9 @@ PATTERNS = [
     ("{mother}>{daughters}", "({mother}>{daughters})"),
     ("{mother} -> {daughters} .", "( {mother} -> {daughters} )"),
     ("TOP {mother} TO {daughters}", "SUB({mother};{daughters})"),
+    ("{mother} -> {daughters}", "[{mother} -> {daughters}]"),
+    ("{mother} -> {daughters}", "{mother} (-> {daughters})"),
+    ("{mother} => {daughters}", "({mother} -> {daughters})"),
 ]
 NAMES = ["K_1(1270)+", "Upsilon(4S)", "f'_0", "anti-K*0", "D0", "D*+", "K_S0", "pi0", "pi+", "pi-", "gamma", "a_1(1260)+",
          "K*(892)0", "psi(2S)", "J/psi", "B_s0", "anti-D*(2010)-", "chi_c1(1P)", "Lambda_c(2595)+", "eta'", "nu_e", "e-"]
@@ -86,6 +89,13 @@ def impl_main(mode, fin, fout):
                 s = dc.to_string()
             res = s
             if mode == "oracle":
+                t = tree_of(c)
+
+                def fmt_tree(t, top):
+                    items = sorted(x if isinstance(x, str) else fmt_tree(x, False) for x in t[1])
+                    return (p1 if top else p2).format(mother=t[0], daughters=" ".join(items))
+                if fmt_tree(t, True) != s:
+                    viol.append("tree not rendered with the first pattern at the top level and the second at every nested level")
                 if (p1, p2) == PATTERNS[0]:
                     back = read_default(s)
                     if canon(back) != canon(tree_of(c)):
